@@ -51,6 +51,37 @@ def c08_case(data):
             "spell": data[1] if flags & 128 else 0}
 
 
+def c06_case(data):
+    """C06: three configuration bytes + a JSON text; an object with an "error" or "result" member is taken as the reply's
+    members, any other value as the "error" member itself"""
+    if len(data) < 4:
+        return None
+    f0, f1, f2 = data[0], data[1], data[2]
+    if b"__jsonclass__" in data or b"\\u005f" in data.lower():
+        # with class translation on such members belong to the translator (C07/C08), not to the error classification
+        return None
+
+    def no_constant(name):
+        raise ValueError("non-standard literal %s" % name)
+    try:
+        # replies are JSON texts: NaN / Infinity are no JSON (and a number that overflows to a non-finite float is left out too)
+        value = json.loads(_text(data[3:]), parse_constant=no_constant)
+        if "inf" in repr(value) and any(tok in repr(value) for tok in ("inf,", "inf]", "inf}", " inf", "-inf")):
+            return None
+    except (ValueError, RecursionError):
+        return None
+    absent = "<ABSENT>"
+    if isinstance(value, dict) and ("error" in value or "result" in value):
+        error, result = value.get("error", absent), value.get("result", absent)
+    else:
+        error, result = value, absent
+    return {"error": error, "v2": bool(f0 & 1), "result": result, "id": [1, None, "x", 0][(f0 >> 1) & 3],
+            "path": ["cfe", "proxy", "notify", "batch-index", "batch-iter"][(f0 >> 3) % 5], "pos": f1 & 3, "n": 1 + ((f1 >> 2) & 3),
+            "repeat": (f1 >> 4) % 3, "wire": [None, "length", "chunked", "close", "gzip", "length-lowercase", None, None][f2 & 7],
+            "ctx": ["plain", "block", "ctor+block", "nested", "ctor-only", "empty-block", "plain", "plain"][(f2 >> 3) & 7], "sizes": [],
+            "pad": None, "client": ["default", "v1", "forced-v1", "forced-v2"][(f2 >> 6) & 3]}
+
+
 TARGETS = {
     # name: (property, sub-check whose oracle is used, decoder)
     "c02": ("C02", "damage", dispatch_case),
@@ -58,4 +89,5 @@ TARGETS = {
     "c05": ("C05", "damage", dispatch_case),
     "c15": ("C15", "failure", c15_failure_case),
     "c08": ("C08", "random-on", c08_case),
+    "c06": ("C06", "errors", c06_case),
 }
